@@ -142,7 +142,8 @@ def evaluate(chk, cases, tag='cases'):
     terms = {i: render(cases[i], obs[i]) for i in live}
     failing = [live[j] for j in chk.coq_failing(HEADER, [terms[i] for i in live], 'check_case', shard=250, tag=tag)]
     terms = [terms.get(i, '(* implementation crashed *)') for i in range(len(cases))]
-    return terms, obs, sorted(failing + crashed)
+    aliased = [i for i in live if obs[i].get('snapshots_changed')]        # a frozen matrix changed when the builder went on
+    return terms, obs, sorted(set(failing + crashed + aliased))
 
 
 def shrink(chk, case):
@@ -177,11 +178,12 @@ def run(chk):
         key = {k: c[k] for k in c if k != 'queries'}
         chk.note_case(key, nontrivial=nontrivial, sample_every=700)
     chk.extra['exhaustive_histories'] = n_exh
+    chk.extra['mid_history_snapshots'] = sum(o.get('snapshots', 0) for o in obs)
     chk.extra['reads_compared'] = sum(len(o['reads']['cells']) + len(o['reads']['rows']) + len(o['reads']['civ']) for o in obs if 'reads' in o)
     chk.exhaustive = True
     chk.rule = ('all assignment sequences of length <= %d over the 12 non-zero assignments of a 2x3 matrix; degenerate shapes with every '
                 'in/out-of-range coordinate; random histories (uniform / descending columns / one row / overwrites, <= 40 ops, shapes <= 8x8, '
-                'int/bool/float) ; random valid hand-built CSR triples with unsorted rows.  After each history the frozen matrix is read back: '
+                'int/bool/float) ; random valid hand-built CSR triples with unsorted rows.  Matrices frozen from the builder in the middle of a history (every prefix of a short one) are read at once and again after the remaining assignments: nothing may change.  After each history the frozen matrix is read back: '
                 'every cell and row incl. out-of-range coordinates, col_indices_of_val for stored values, the default and an absent value. '
                 'non-trivial = at least 2 assignments / stored entries; distinct by digest' % (4 if chk.tier == 'thorough' else 3))
     if failing:
@@ -191,7 +193,7 @@ def run(chk):
         chk.report_violation('C17:' + small['kind'],
                              {'case': small, 'impl': o[0], 'coq_case': t[0], 'failing_cases': len(failing),
                               'theorem': 'C17_builder_refines_dense / C17_reads_are_dense / C17_out_of_shape',
-                              'explanation': 'reading the matrix back differs from the dense matrix the proved model denotes'},
+                              'explanation': 'reading the matrix back differs from the dense matrix the proved model denotes' if not o[0].get('snapshots_changed') else 'a matrix frozen from the builder after %s assignments reads differently once the builder has been assigned to again' % o[0]['snapshots_changed']},
                              what='CSR read-back differs from the dense matrix for ' + json.dumps({k: small[k] for k in small if k != 'queries'}))
 
 
